@@ -404,7 +404,7 @@ Proof.
   - intros ty. rewrite <- Hty. rewrite !in_map_iff. split; intros (t & <- & Ht); exists t; split; auto; apply Hset; auto.
 Qed.
 
-Theorem initiator_child_accepted ike_auth offer sa chosen :
+Theorem initiator_child_accepted (ike_auth : bool) offer sa chosen :
   initiator_child ike_auth offer sa = Ok chosen ->
   exists mine, (if ike_auth then copy_without_dh offer else Ok offer) = Ok mine /\
     (exists rest, sa = chosen :: rest) /\
@@ -446,36 +446,47 @@ Proof.
   - apply none_refused. exact Hs.
 Qed.
 
-Theorem child_responder_invalid_ke ike_auth conf sa g' g :
-  child_responder ike_auth conf sa (Some g') = Raise (InvalidKePayload g) ->
-  exists mine chosen t l, (if ike_auth then copy_without_dh conf else Ok conf) = Ok mine /\
-    select_best mine sa = Ok chosen /\ get_transforms chosen TYPE_DH = t :: l /\ g = t_id t /\ g <> g' /\
-    In t (p_transforms mine).
+Lemma own_raise (ike_auth : bool) (conf : proposal) (e : exn) :
+  (if ike_auth then copy_without_dh conf else Ok conf) = Raise e -> e = InvalidSyntax.
 Proof.
-  unfold child_responder. destruct (if ike_auth then copy_without_dh conf else Ok conf) as [mine|e]; [|congruence].
-  destruct (select_best mine sa) as [chosen|e] eqn:Hs; [|congruence].
-  destruct (get_transforms chosen TYPE_DH) as [|t l] eqn:Eg; [discriminate|].
-  unfold ke_mismatch. destruct (negb (Z.eqb (t_id t) g')) eqn:Ek; [|discriminate].
-  intros H; inversion H; subst. exists mine, chosen, t, l. repeat split; auto; try lia.
-  assert (Hin : In t (get_transforms chosen TYPE_DH)) by (rewrite Eg; left; reflexivity).
-  unfold get_transforms in Hin. apply filter_In in Hin. destruct Hin as (Hin & _).
-  destruct (select_sound _ _ _ Hs) as (peer & _ & _ & _ & _ & _ & _ & _ & G). apply G in Hin. tauto.
+  destruct ike_auth; [|discriminate]. unfold copy_without_dh. destruct (without_dh conf); [|discriminate].
+  intros H; inversion H; reflexivity.
 Qed.
 
-Theorem child_responder_ok ike_auth conf sa ke chosen :
+Theorem child_responder_invalid_ke (ike_auth : bool) conf sa ke g :
+  child_responder ike_auth conf sa ke = Raise (InvalidKePayload g) ->
+  exists mine chosen t l g', ke = Some g' /\ (if ike_auth then copy_without_dh conf else Ok conf) = Ok mine /\
+    select_best mine sa = Ok chosen /\ get_transforms chosen TYPE_DH = t :: l /\ g = t_id t /\ g <> g' /\
+    In t (p_transforms mine) /\ t_type t = TYPE_DH.
+Proof.
+  unfold child_responder. destruct (if ike_auth then copy_without_dh conf else Ok conf) as [mine|e] eqn:Em.
+  2:{ intros H; inversion H; subst. apply own_raise in Em. discriminate. }
+  destruct (select_best mine sa) as [chosen|e] eqn:Hs.
+  2:{ intros H; inversion H; subst. destruct (select_total mine sa) as [(r & Hr)|Hr]; congruence. }
+  destruct (get_transforms chosen TYPE_DH) as [|t l] eqn:Eg; [discriminate|].
+  destruct ke as [g'|]; [|discriminate].
+  unfold ke_mismatch. destruct (negb (Z.eqb (t_id t) g')) eqn:Ek; [|discriminate].
+  intros H; inversion H; subst. exists mine, chosen, t, l, g'.
+  assert (Hin : In t (get_transforms chosen TYPE_DH)) by (rewrite Eg; left; reflexivity).
+  unfold get_transforms in Hin. apply filter_In in Hin. destruct Hin as (Hin & Hty).
+  destruct (select_sound _ _ _ Hs) as (peer & _ & _ & _ & _ & _ & _ & _ & G). apply G in Hin.
+  repeat split; auto; try lia; tauto.
+Qed.
+
+Theorem child_responder_ok (ike_auth : bool) conf sa ke chosen :
   child_responder ike_auth conf sa ke = Ok chosen ->
   exists mine, (if ike_auth then copy_without_dh conf else Ok conf) = Ok mine /\ select_best mine sa = Ok chosen /\
     (forall t, In t (get_transforms chosen TYPE_DH) -> exists t0 l, get_transforms chosen TYPE_DH = t0 :: l /\ ke = Some (t_id t0)).
 Proof.
-  unfold child_responder. destruct (if ike_auth then copy_without_dh conf else Ok conf) as [mine|e]; [|congruence].
-  destruct (select_best mine sa) as [c|e] eqn:Hs; [|congruence].
+  unfold child_responder. destruct (if ike_auth then copy_without_dh conf else Ok conf) as [mine|e]; [|discriminate].
+  destruct (select_best mine sa) as [c|e] eqn:Hs; [|discriminate].
   destruct (get_transforms c TYPE_DH) as [|t l] eqn:Eg.
   - intros H; inversion H; subst. exists mine. rewrite Eg. repeat split; auto. intros t [].
   - destruct ke as [g|]; [|discriminate]. unfold ke_mismatch. destruct (negb (Z.eqb (t_id t) g)) eqn:Ek; [discriminate|].
     intros H; inversion H; subst. exists mine. rewrite Eg. repeat split; auto. intros _ _. exists t, l. split; auto. f_equal. lia.
 Qed.
 
-Theorem child_responder_refused ike_auth conf sa ke mine :
+Theorem child_responder_refused (ike_auth : bool) conf sa ke mine :
   (if ike_auth then copy_without_dh conf else Ok conf) = Ok mine ->
   (forall q, In q sa -> intersection mine q = None) ->
   child_responder ike_auth conf sa ke = Raise NoProposalChosen.
